@@ -49,3 +49,12 @@ Proof. exact peal_takes_requested_time. Qed.
 (* the feasibility guard is necessary: a 10-minute peal on 16 bells has I < 10 ms *)
 Example C11_guard_is_needed : Qltb (peal_speed_to_blow_interval 10 16) (1 # 100) = true.
 Proof. vm_compute. reflexivity. Qed.
+
+From Wh Require Import Parse Glue GlueP.
+From Coq Require Import ZArith QArith.
+
+(* "the configured speed and gap": what -S, -G, -I and -X say is what the regression is built with *)
+Theorem C11_cli_speed_and_gap : forall c cfg, console_cfg c = Ok cfg ->
+  parse_peal_speed (cl_peal c) = Ok (bc_peal cfg) /\ bc_gap cfg = cl_gap c /\ bc_inertia cfg = cl_inertia c
+  /\ bc_max cfg = cl_max c /\ bc_min cfg = Nat.min 4 (cl_max c).
+Proof. exact speed_and_gap_passed_on. Qed.
